@@ -72,9 +72,17 @@ def write_if_changed(path, text):
     return False
 
 
+def regen_driver():
+    """Driver.lean is generated from the `-- DRIVER:` headers of Pms/Model/*Driver.lean"""
+    sys.path.insert(0, os.path.join(VERIF, "tools"))
+    import mkdrivers
+    write_if_changed(os.path.join(LEAN, "Driver.lean"), mkdrivers.render(LEAN))
+
+
 def lake_build(targets, timeout=3000):
     """returns (ok, log).  Caller holds the lock."""
     t0 = time.time()
+    regen_driver()
     try:
         p = subprocess.run(["lake", "build"] + list(targets), cwd=LEAN, capture_output=True, text=True, timeout=timeout)
     except subprocess.TimeoutExpired:
@@ -230,11 +238,11 @@ def dec(rng, lo, hi, nd=3):
 # ----------------------------------------------------------------------------- findings / evidence
 
 def load_known():
-    p = os.path.join(VERIF, "known_findings.json")
+    p = os.path.join(VERIF, "known_findings.jsonl")
     if not os.path.exists(p):
         return []
     with open(p) as f:
-        return json.load(f).get("entries", [])
+        return [json.loads(l) for l in f if l.strip()]
 
 
 def load_corpus(prop):
